@@ -24,7 +24,7 @@ CTX = {}
 def gen_tree(rng, depth, allow_type=True):
     r = rng.random()
     if depth <= 0 or r < 0.25:
-        return {"s": rng.choice(["v", "w", "", "t.u"])} if rng.random() < 0.5 else {"n": rng.randint(0, 9)}
+        return {"s": rng.choice(["v", "w", "", "t.u", "pipeline", "the pipeline of site A", "__type__"])} if rng.random() < 0.5 else {"n": rng.randint(0, 9)}
     if r < 0.5:
         items = [gen_tree(rng, depth - 1) for _ in range(rng.randint(0, 4))]
         # equal siblings: the same definition repeated (an index must still name the position)
